@@ -331,7 +331,9 @@ def case_strategy(draw, tier):
         case["kro3"] = draw(st.sampled_from(["default", "default", "stone2", "stone1"]))
     cells = []
     for c in range(ncell):
-        cells.append({"satnum": draw(st.integers(1, nreg))})
+        # hysteresis: prefer a drainage region that leaves room for a different imbibition region
+        cells.append({"satnum": draw(st.integers(1, nreg - 1)) if hyst and nreg > 1 and draw(st.integers(0, 3)) > 0
+                      else draw(st.integers(1, nreg))})
     case["cells"] = cells
     case["threept"] = False
     if mode == "identity":
@@ -369,7 +371,10 @@ def case_strategy(draw, tier):
         case["model"] = draw(st.sampled_from([0, 0, 1, 2, 2, 3]))
         corner_opts = {"OW": ["w"], "GO": ["g"], "OWG": ["w", "g"]}[phases]
         for cell in cells:
-            cell["imbnum"] = draw(st.integers(cell["satnum"], nreg)) if draw(st.integers(0, 2)) else cell["satnum"]
+            if cell["satnum"] < nreg and draw(st.integers(0, 3)) > 0:
+                cell["imbnum"] = draw(st.integers(cell["satnum"] + 1, nreg))
+            else:
+                cell["imbnum"] = cell["satnum"]
             cell["corner"] = draw(st.sampled_from(corner_opts))
             n = draw(st.integers(3, 10 if tier == "quick" else 14))
             cell["hist"] = [draw(st.integers(0, 1000)) for _ in range(n)]
@@ -577,7 +582,8 @@ class C15(Check):
         "hysteresis: kr hysteresis only (EHYSTR item 5 = KR), models 0..3; drainage and imbibition curves share "
         "connate, maximum saturation and maximum relperm, critical non-wetting saturation of the imbibition curve "
         ">= drainage; non-wetting curves strictly monotone in their mobile range (on a plateau Carlson's horizontal "
-        "shift is not unique); no end-point scaling in hysteresis runs; WAG hysteresis not generated",
+        "shift is not unique); saturation histories stay inside the table's saturation range [0, SGU] resp. "
+        "[SWL, 1] for the same reason; no end-point scaling in hysteresis runs; WAG hysteresis not generated",
         "continuity at a reversal point is checked through the one-sided limit extrapolated from three probes "
         "1e-7 apart and only where those probes lie on one linear piece",
     ]
@@ -998,8 +1004,11 @@ class C15(Check):
             prog = []
             plan = []
             shy = None
+            # histories stay inside the table's saturation range (beyond its last row the drainage curve is flat,
+            # i.e. a plateau, where the horizontal shift of the scanning curve is not unique)
+            hmax = snmax if corner == "w" else min(snmax, fsat(reg["sg"][-1]))
             for h in c["hist"]:
-                sn = snmax * h / 1000.0
+                sn = hmax * h / 1000.0
                 shy = sn if shy is None else max(shy, sn)
                 st_trip = point(ph, corner, s_of_sn(sn), swco)
                 prog.append({"op": "update", "s": st_trip})
